@@ -9,6 +9,7 @@ use crate::util::*;
 use crate::w_merkle::*;
 use crate::Args;
 use cosmwasm_std::{coin, Addr, Timestamp};
+use cw_multi_test::Executor;
 use serde::{Deserialize, Serialize};
 use serde_json::json;
 use std::collections::{BTreeMap, BTreeSet};
@@ -52,7 +53,12 @@ fn spell(root: &str, mode: u8) -> String {
     match mode {
         0 => root.to_string(),
         1 => root.to_uppercase(),
-        _ => root.chars().enumerate().map(|(i, c)| if i % 2 == 0 { c.to_ascii_uppercase() } else { c }).collect(),
+        2 => root.chars().enumerate().map(|(i, c)| if i % 2 == 0 { c.to_ascii_uppercase() } else { c }).collect(),
+        // 3.. : NOT the same root: one hex digit changed (last / first / middle), halves swapped
+        3 => flip_hex_char(root, root.len() - 1),
+        4 => flip_hex_char(root, 0),
+        5 => flip_hex_char(root, root.len() / 2),
+        _ => format!("{}{}", &root[root.len() / 2..], &root[..root.len() / 2]),
     }
 }
 fn alloc_of(i: u64) -> u32 {
@@ -280,6 +286,12 @@ fn run_case(w: &mut World, c: &Case) -> Outcome {
             if !wf && r.is_ok() {
                 viol.push(("C14:flat-malformed-not-error".to_string(), format!("malformed proof element answered {:?}", r)));
             }
+            if label.starts_with("wrong-root") && r == Ok(true) {
+                viol.push((
+                    "C14:flat-wrong-root-accepted".to_string(),
+                    format!("the stored root {} is not the root of the tree, yet an entry of that tree is accepted ({})", root, label),
+                ));
+            }
             if label == "own-uppercase-root" && r != Ok(true) {
                 viol.push((
                     "C14:flat-uppercase-root-never-matches".to_string(),
@@ -296,8 +308,32 @@ fn run_case(w: &mut World, c: &Case) -> Outcome {
             chain::set_time(&mut w.app, *at);
             let r = has_member(&w.app, &addr, true, member, proof);
             let wf = proof.iter().all(|h| wellformed_hash(h, 16));
+            if *spelling >= 3 && r == Ok(true) {
+                viol.push((
+                    "C14:tiered-wrong-root-accepted".to_string(),
+                    "the stored roots are not the roots of the trees, yet an entry is accepted".to_string(),
+                ));
+            }
             match active_by_text(stages, *at) {
-                Err(()) => {}
+                Err(()) => {
+                    // an edge instant: the text does not say who owns it, the contract's own
+                    // ActiveStage query does; HasMember must use that stage's root
+                    let act = catch(|| {
+                        w.app.wrap().query_wasm_smart::<Option<tiered_whitelist_merkletree::state::Stage>>(
+                            addr.clone(),
+                            &tiered_whitelist_merkletree::msg::QueryMsg::ActiveStage {},
+                        )
+                    });
+                    if let Ok(Ok(Some(st))) = act {
+                        let own = label.split('@').next().unwrap_or("");
+                        if *spelling == 0 && own == format!("own-{}", st.name) && r != Ok(true) {
+                            viol.push((
+                                "C14:tiered-active-stage-inconsistent".to_string(),
+                                format!("ActiveStage reports {} at {} but its entry with its own proof answers {:?}", st.name, at, r),
+                            ));
+                        }
+                    }
+                }
                 Ok(None) => {
                     if r.is_ok() {
                         viol.push(("C14:tiered-inactive-answer".to_string(), format!("no stage active at {} but HasMember answered {:?}", at, r)));
@@ -309,7 +345,7 @@ fn run_case(w: &mut World, c: &Case) -> Outcome {
                         if !wf && r.is_ok() {
                             viol.push(("C14:tiered-malformed-not-error".to_string(), format!("malformed proof element answered {:?}", r)));
                         }
-                        if label == &format!("own-stage{}", i) && r != Ok(true) {
+                        if label == &format!("own-stage{}", i) && r != Ok(true) && *spelling < 3 {
                             if *spelling != 0 {
                                 viol.push((
                                     "C14:tiered-uppercase-root-never-matches".to_string(),
@@ -419,6 +455,18 @@ fn run_case(w: &mut World, c: &Case) -> Outcome {
                             hist.push(format!("flat:hist-query:{}", res_tag(&r)));
                             coq_ops.push(format!("WQuery {} {} {}", coq_str(member), coq_strs(proof), coq_res_bool(&r)));
                         }
+                    }
+                }
+            }
+            // migrate (same code, by the chain-level admin and by a stranger): the root stays
+            if let Ok(addr) = &inst {
+                for who in [CREATOR, STRANGER] {
+                    let r = catch(|| app.migrate_contract(Addr::unchecked(who), addr.clone(), &cosmwasm_std::Empty {}, code));
+                    steps += 1;
+                    let root = query_root_flat(&app, addr).unwrap_or_default();
+                    hist.push(format!("flat:migrate:{}", if matches!(r, Ok(Ok(_))) { "ok" } else { "err" }));
+                    if root != init.root {
+                        viol.push(("C14:flat-root-changed".to_string(), format!("MerkleRoot was {} and is {} after migrate by {}", init.root, root, who)));
                     }
                 }
             }
@@ -532,6 +580,17 @@ fn run_case(w: &mut World, c: &Case) -> Outcome {
                             hist.push(format!("tiered:hist-query:{}", res_tag(&r)));
                             coq_ops.push(format!("TQuery {} {} {} {}", now, coq_str(member), coq_strs(proof), coq_res_bool(&r)));
                         }
+                    }
+                }
+            }
+            if let Ok(addr) = &inst {
+                for who in [CREATOR, STRANGER] {
+                    let r = catch(|| app.migrate_contract(Addr::unchecked(who), addr.clone(), &cosmwasm_std::Empty {}, code));
+                    steps += 1;
+                    let roots = query_roots_tiered(&app, addr).unwrap_or_default();
+                    hist.push(format!("tiered:migrate:{}", if matches!(r, Ok(Ok(_))) { "ok" } else { "err" }));
+                    if roots != init.roots {
+                        viol.push(("C14:tiered-root-changed".to_string(), format!("MerkleRoots were {:?} and are {:?} after migrate by {}", init.roots, roots, who)));
                     }
                 }
             }
@@ -826,6 +885,18 @@ fn gen_cases(a: &Args) -> Vec<Case> {
                 });
             }
             cases.push(Case::FlatRootQuery { root: r.clone(), label: "outsider-uppercase-root".into(), member: outsider.clone(), proof: b.proof_hex(1) });
+            // a stored root that differs from the tree's in one digit / has its halves swapped:
+            // nothing of that tree may be accepted
+            for wrong in [mode + 2, mode + 4] {
+                let r = spell(&b.root_hex(), wrong);
+                for i in 0..ms.len() {
+                    cases.push(Case::FlatRootQuery { root: r.clone(), label: format!("wrong-root-{}", wrong), member: ms[i].clone(), proof: b.proof_hex(i) });
+                    cases.push(Case::TieredQuery {
+                        lists: vec![Members::Short { n: 5 }], stages: stages.clone(), nroots: 1, spelling: wrong, at: (stages[0].start + stages[0].end) / 2,
+                        label: "own-stage0".into(), member: ms[i].clone(), proof: bt.proof_hex(i),
+                    });
+                }
+            }
             cases.push(Case::TieredQuery {
                 lists: vec![Members::Short { n: 5 }], stages: stages.clone(), nroots: 1, spelling: mode, at: (stages[0].start + stages[0].end) / 2,
                 label: "outsider-uppercase-root".into(), member: outsider.clone(), proof: bt.proof_hex(1),
@@ -1234,6 +1305,18 @@ fn tiered_hist_cases(a: &Args, rng: &mut Rng) -> Vec<Case> {
             });
         }
     }
+    // every integer literal of the tiered contract's source (and neighbours) joins the limit pool
+    let mut limit_pool: Vec<u32> = vec![0, 1, 2, 49, 50, 51];
+    for l in harvest_literals(&[
+        "contracts/whitelists/tiered-whitelist-merkletree/src/contract.rs",
+        "contracts/whitelists/tiered-whitelist-merkletree/src/helpers/utils.rs",
+    ]) {
+        for d in [l.saturating_sub(1), l, l.saturating_add(1)] {
+            if d <= u32::MAX as u128 {
+                limit_pool.push(d as u32);
+            }
+        }
+    }
     // structured random histories
     let nh = if a.thorough() { 400 } else { 40 };
     for _ in 0..nh {
@@ -1256,7 +1339,7 @@ fn tiered_hist_cases(a: &Args, rng: &mut Rng) -> Vec<Case> {
                     start: if rng.chance(1, 2) { Some(edge(rng)) } else { None },
                     end: if rng.chance(1, 2) { Some(edge(rng)) } else { None },
                     denom: if rng.chance(1, 8) { Some("uother".to_string()) } else if rng.chance(1, 4) { Some(NATIVE.to_string()) } else { None },
-                    limit: if rng.chance(1, 3) { Some(*rng.pick(&[0u32, 1, 2, 49, 50, 51])) } else { None },
+                    limit: if rng.chance(1, 3) { Some(*rng.pick(&limit_pool)) } else { None },
                 },
                 4 => TieredOpKind::UpdateAdmins(if rng.chance(1, 5) { vec!["x".into()] } else { vec![CREATOR.into(), rng.pick(&[ADMIN2, STRANGER]).to_string()] }),
                 5 => TieredOpKind::Freeze,
